@@ -119,6 +119,8 @@ partial def runPlan (s : State) (pid : Nat) (plan : List (Nat × Act)) (n : Nat)
 def parseAct (a : String) : Option Act :=
   if a == "K" then some .kill
   else if a == "G" then some .group
+  else if a == "T" || a == "H" then some .kill          -- SIGTERM / SIGHUP to the script alone: no handler, dies as with SIGKILL
+  else if a == "Ot" then some (.orphan false)           -- … while the child of the command runs
   else if a == "O" then some (.orphan false)
   else if a == "On" then some (.orphan true)
   else if a == "cg" then some (.commit true)
